@@ -446,3 +446,39 @@ func inModule(fn *ssa.Function) bool {
 }
 
 const modPath = "github.com/form3tech-oss/f1/v2"
+
+// InstrWeight builds a weight function counting executions of instructions satisfying pred, looking into
+// module callees (helpers, literals invoked in place) up to depth levels; `go` statements are not followed.
+func InstrWeight(pred func(ssa.Instruction) bool, depth int) func(ssa.Instruction) Interval {
+	memo := map[*ssa.Function]Interval{}
+	var wf func(d int) func(ssa.Instruction) Interval
+	wf = func(d int) func(ssa.Instruction) Interval {
+		return func(in ssa.Instruction) Interval {
+			if pred(in) {
+				return Interval{1, 1}
+			}
+			c, ok := in.(ssa.CallInstruction)
+			if !ok {
+				return Interval{}
+			}
+			if _, isGo := in.(*ssa.Go); isGo {
+				return Interval{}
+			}
+			callee := Callee(c)
+			if callee == nil || callee.Blocks == nil || d <= 0 || !inModule(callee) {
+				return Interval{}
+			}
+			if iv, ok := memo[callee]; ok {
+				return iv
+			}
+			memo[callee] = Interval{}
+			t, ok := Total(PathCount(callee, wf(d-1)), true)
+			if !ok {
+				t = Interval{}
+			}
+			memo[callee] = t
+			return t
+		}
+	}
+	return wf(depth)
+}
